@@ -30,9 +30,11 @@ def parse(text: str, statement_stream_processor: "StatementStreamProcessor", *, 
     try:
         pr.visit(_get_grammar().parse(text))  # type: ignore
     except _error.Error as ex:
-        # Inject error location. If this exception is being propagated from a recursive instance, it already has
-        # its error location populated, so nothing will happen here.
-        ex.set_error_location_if_unknown(line=pr.current_line_number)
+        # Inject error location. If this exception is being propagated from a recursive instance (i.e., from a
+        # definition this one depends on), its path is already populated and its line, if any, refers to that file,
+        # so the line of the statement that is being processed here must not be attached to it.
+        if ex.path is None:
+            ex.set_error_location_if_unknown(line=pr.current_line_number)
         raise ex
     except parsimonious.ParseError as ex:
         raise DSDLSyntaxError("Syntax error", line=int(ex.line())) from None  # type: ignore
